@@ -322,7 +322,11 @@ func PropC01(c *vs.Case, f Factory, kind string) error {
 							// a hook-specified field inside a keyed list item drifts as well (the item stays)
 							if ports, ok := m["ports"].([]any); ok && len(ports) > 0 && driftInItem {
 								if it, ok := ports[len(ports)-1].(map[string]any); ok {
-									it["port"] = int64(9999)
+									if _, has := it["proto"]; has {
+										it["proto"] = "drifted" // not a merge key: the item is the same item
+									} else {
+										it["port"] = int64(9999)
+									}
 									c.Class("history:drift-inside-list-item")
 								}
 							}
